@@ -157,6 +157,20 @@ pub fn run_field(fc: &FC, rep: &mut Report, rng: &mut Rng, args: &Args) {
     for x in &st {
         one_int(fc, rep, x, None);
     }
+    // a limb slice longer than N does not denote an element of this field's integer range: documented to be
+    // refused (an assertion, i.e. a compile error for a literal); silently dropping limbs is the violation
+    for extra in [1usize, 2] {
+        let mut limbs = vec![5u64; 1];
+        limbs.resize(n + extra, 0);
+        limbs[n + extra - 1] = 1;
+        for positive in [true, false] {
+            rep.class("const ctor: more than N limbs (must be refused)");
+            rep.eval(mix(fc.cd, digest(&("too-wide", extra, positive))), true);
+            if let Ok(r) = guard(|| fc.pf.const_sign_limbs(positive, &limbs)) {
+                rep.violation(fc.sig("Fp::from_sign_and_limbs", "accepts-more-than-N-limbs"), json!({"config": fc.name, "limbs": hex_limbs(&limbs), "positive": positive, "returned_raw": hex_limbs(&r)}));
+            }
+        }
+    }
     let small = p.bits() <= 16;
     if small {
         // tiny moduli: every integer below 4p (capped)
@@ -217,7 +231,7 @@ pub fn run_field(fc: &FC, rep: &mut Report, rng: &mut Rng, args: &Args) {
 
 /// observation classes every configuration with `n` limbs must show
 pub fn required(n: usize) -> Vec<&'static str> {
-    let mut v = vec![C_GE_P, C_NEG, C_ZERO, C_MAX, C_PRE];
+    let mut v = vec![C_GE_P, C_NEG, C_ZERO, C_MAX, C_PRE, "const ctor: more than N limbs (must be refused)"];
     if n >= 2 {
         v.push(C_SHORT);
     }
